@@ -281,7 +281,13 @@ func ChildMain() {
 		cfg.Adapters = append(cfg.Adapters, srv.Adapter{Obj: s.obj, Proto: "tcp", Host: "127.0.0.1", Port: port})
 		cfg.Servants[s.obj] = srv.ServantDef{D: s.d, Imp: s.imp}
 	}
-	dir, _ := os.MkdirTemp("", "verif-c01-")
+	// inside the launcher's scratch directory (the child's working directory), which the launcher
+	// removes: this process ends with os.Exit and runs no deferred clean-up
+	base := ""
+	if wd, err := os.Getwd(); err == nil && strings.HasPrefix(filepath.Base(wd), "verif-c01-") {
+		base = wd
+	}
+	dir, _ := os.MkdirTemp(base, "verif-c01-srv-")
 	defer os.RemoveAll(dir)
 	cfg.Dir = dir
 	if err := srv.Start(cfg, nil, nil, true); err != nil {
